@@ -45,6 +45,9 @@ func Escape(str string, isBytes bool) (string, error) {
 				} else {
 					buf = append(buf, `\t`...)
 				}
+			case '\r':
+				// Unescape turns an unescaped carriage return into a newline.
+				buf = append(buf, `\x0d`...)
 			case '\\':
 				if isBytes {
 					buf = append(buf, `\x5c`...)
